@@ -203,13 +203,25 @@ pub fn record(pool_path: &str, w: &mut dyn Write, seed: u64, scale: usize) {
             }
         }
         // ---- many separate members: stitching k x k separate squares, triangulated
-        for (i, kk) in [2usize, 3, 4, 5].iter().enumerate() {
+        // (k = 14 and 24: 392 and 1152 triangles - implementations switch strategy with size)
+        for (i, kk) in [2usize, 3, 4, 5, 14, 24].iter().enumerate() {
             let g = grid(*kk, 0.0, 0.0);
             let ts: Vec<Triangle<f64>> = g.0.iter().flat_map(|p| p.earcut_triangles()).collect();
             emit(format!("stitch_squares#{i}"), dg(guard(|| ts.stitch_triangulation().unwrap_or(MultiPolygon::new(vec![]))), |d, m| d.mp(m)), json!({}));
             let nested = MultiPolygon::new(vec![Polygon::new(sq(0.0, 0.0, 20.0).exterior().clone(), (0..*kk).map(|j| { let mut h = sq(2.0 + 4.0 * j as f64, 2.0, 2.0).exterior().clone(); h.0.reverse(); h }).collect())]);
             let ts2 = TriangulateDelaunay::constrained_triangulation(&nested, Default::default()).unwrap_or_default();
             emit(format!("stitch_holes#{i}"), dg(guard(|| ts2.stitch_triangulation().unwrap_or(MultiPolygon::new(vec![]))), |d, m| d.mp(m)), json!({}));
+        }
+        // ---- one large piece: the ear-cut triangles of a 700-vertex staircase polygon with three holes, stitched back
+        {
+            let n = 349usize;
+            let mut ring = vec![Coord { x: 0.0, y: 0.0 }, Coord { x: n as f64, y: 0.0 }];
+            for k in 1..=n { ring.push(Coord { x: (n - k + 1) as f64, y: k as f64 }); ring.push(Coord { x: (n - k) as f64, y: k as f64 }); }
+            ring.push(Coord { x: 0.0, y: 0.0 });
+            let hole = |x: f64, y: f64| { let mut h = sq(x, y, 1.0).exterior().clone(); h.0.reverse(); h };
+            let big = Polygon::new(LineString::new(ring), vec![hole(1.0, 1.0), hole(3.0, 1.0), hole(1.0, 3.0)]);
+            let ts = big.earcut_triangles();
+            emit("stitch_big#0".into(), dg(guard(|| ts.stitch_triangulation().unwrap_or(MultiPolygon::new(vec![]))), |d, m| d.mp(m)), json!({"ntri": ts.len()}));
         }
         // ---- point-set algorithms driven by spatial indices
         for i in 0..(3 * scale) {
